@@ -2297,15 +2297,22 @@ func tokenTypes() []simplexer.TokenType{
 		t(LT, methodOps["lt"]),
 		t(ADD_CHAIN, `[&~=]`),
 		t(MAIN_CHAIN, `[\.@$]`),
-		t(IF, `if`),
-		t(ELSE, `else`),
-		t(RETURN, `return`),
-		t(YIELD, `yield`),
-		t(RAISE, `raise`),
-		t(DEFER, `defer`),
+		// NOTE: keywords are lexed as IDENT and converted in Lex()
+		// (otherwise identifiers starting with a keyword such as `iffy`
+		// are divided to a keyword and the rest)
 		t(IDENT, ident),
 		t(PRIVATE_IDENT, fmt.Sprintf(`_+(%s)?`, ident)),
 	}
+}
+
+// keywordIDs maps reserved words to their token ids
+var keywordIDs = map[string]int{
+	"if": IF,
+	"else": ELSE,
+	"return": RETURN,
+	"yield": YIELD,
+	"raise": RAISE,
+	"defer": DEFER,
 }
 
 func embeddedStrTokenTypes() []simplexer.TokenType {
@@ -2378,6 +2385,14 @@ func (l *Lexer) Lex(lval *yySymType) int {
 	}
 
 	l.Source = newSource
+
+	if token.Type.GetID() == IDENT {
+		// an identifier which is exactly a reserved word is a keyword
+		if id, ok := keywordIDs[token.Literal]; ok {
+			return id
+		}
+	}
+
 	return int(token.Type.GetID())
 }
 
